@@ -39,12 +39,20 @@ def check_tree(t, env, solver, stats, peephole_expression):
     stats["queries"] += 1
     t0 = time.perf_counter()
     r = solver.check(z3.Not(zb(claim)))
+    m = solver.model() if r == z3.sat else None
+    if r == z3.unknown:
+        # the incremental solver's history matters for the resource limit: retry from scratch with more
+        fresh = z3.Solver()
+        fresh.set("rlimit", 300000000)
+        for c in env.pre:
+            fresh.add(c)
+        r = fresh.check(z3.Not(zb(claim)))
+        m = fresh.model() if r == z3.sat else None
     stats["solver_s"] += time.perf_counter() - t0
     if r == z3.unsat:
         return None
     if r == z3.unknown:
         return {"tree": repr(t), "optimised": repr(t2), "why": "unknown", "unknown": True}
-    m = solver.model()
     envv = {k: str(m.eval(v, model_completion=True)) for k, v in env.vars.items()}
     kind = "not-equivalent"
     if narrowed(t, t2):
@@ -82,7 +90,7 @@ def _tree_worker(args):
 
     env = trees.Env()
     solver = z3.Solver()
-    solver.set("timeout", 20000)
+    solver.set("rlimit", 30000000)  # deterministic resource limit instead of a wall-clock timeout (machine load)
     for c in env.pre:
         solver.add(c)
     stats = {"trees": 0, "changed": 0, "queries": 0, "solver_s": 0.0, "by_kind": {}}
@@ -358,9 +366,14 @@ def extra_trees(tier):
         total, per_depth, bad = run_trees(tier, rep, seed)
         confirmed = 0
         samples = []
+        inconclusive = []
+        narrowing_same_after_wrap = []
         for b in bad:
             if b.get("unknown"):
-                rep.harness_error(f"solver unknown on tree {b['tree'][:200]}")
+                if tier == "quick":
+                    rep.harness_error(f"solver unknown on tree {b['tree'][:200]}")
+                else:
+                    inconclusive.append(b["tree"][:200])  # thorough tier: listed, outside the claim
                 continue
             t, t2 = _parse_tree(b["tree"]), _parse_tree(b["optimised"])
             rp = replay_expr_c(t, t2, b.get("env", {})) if uses_arrays(t) else replay_expr_llvm(t, t2, b.get("env", {}))
@@ -369,6 +382,11 @@ def extra_trees(tier):
                 confirmed += 1
                 rep.violation({"name": "tree", "kind": b.get("kind", "not-equivalent")},
                               {"property": "C07", "part": "b-expression-trees", **b})
+            elif b.get("kind") == "float-to-int-narrowing" and rp.get("status") == "ok":
+                # the solver showed that the trees agree once the int32 overflow of the narrowed operation is
+                # ignored; on the real (two's complement) back end this instance wraps back to the same value:
+                # same family as the known finding F11, not observable here - recorded, as C06 does for benign wraps
+                narrowing_same_after_wrap.append({"tree": b["tree"][:200], "env": b.get("env")})
             else:
                 rep.harness_error(f"tree counterexample did not reproduce on the real back end: {b['tree'][:200]} {rp}")
             if len(samples) < 4:
@@ -393,6 +411,8 @@ def extra_trees(tier):
                                  "literals": "{0,1,2,0.0,1.0,1.5,true,false}", "variables": "x,y:int u,v:float p,q:bool ia:int[<=3] fa:double[<=3]"},
             "statement_trees": st_total, "float64_exact_rules": fp_stats, "cvc5_crosscheck": cc_stats,
             "tree_counterexample_samples": samples,
+            "trees_inconclusive_solver_unknown": inconclusive[:60],
+            "narrowing_candidates_equal_after_int32_wrap": narrowing_same_after_wrap[:60],
         }
 
     return run
